@@ -77,6 +77,18 @@ class Runner:
         except FileNotFoundError:
             return None
 
+    def run_limited(self, action, limit, ignore_sigxfsz):
+        """no tracer: the run gets RLIMIT_FSIZE=limit, so the write crossing it returns a short count and the next one fails
+        with EFBIG (SIGXFSZ ignored) or the process dies of SIGXFSZ at that write (default disposition)."""
+        import resource
+        import signal
+
+        def pre():
+            signal.signal(signal.SIGXFSZ, signal.SIG_IGN if ignore_sigxfsz else signal.SIG_DFL)
+            resource.setrlimit(resource.RLIMIT_FSIZE, (limit, limit))
+        r = subprocess.run([self.bld.snoopyctl, action], env=self.env, capture_output=True, timeout=60, preexec_fn=pre)
+        return r.returncode
+
     def run(self, action, inject=None):
         tr = os.path.join(self.work, "trace")
         cmd = ["strace", "-f", "-o", tr]
@@ -104,7 +116,7 @@ def do_scenario(arg):
     os.makedirs(work, exist_ok=True)
     R = Runner(bld, work)
     F = Findings(PROP)
-    st = dict(kill_runs=0, kill_fired=0, err_runs=0, err_fired=0, inconclusive=0, ended_old=0, ended_new=0, exit0_after_failed_write=0)
+    st = dict(kill_runs=0, kill_fired=0, err_runs=0, err_fired=0, inconclusive=0, ended_old=0, ended_new=0, exit0_after_failed_write=0, fsize_runs=0, fsize_failed_run=0, history_runs=0)
     R.reset(content)
     rc, lines = R.run(action)
     new = R.get()
@@ -178,6 +190,45 @@ def do_scenario(arg):
                     st["exit0_after_failed_write"] += 1
             else:
                 st["inconclusive"] += 1
+    # short writes and death at a write: file size limits below the length of the new content
+    newlen = len(new or b"")
+    for lim in sorted({0, 1, newlen // 2, max(newlen - 1, 0)}):
+        if lim >= newlen:
+            continue
+        for ign in (True, False):
+            R.reset(content)
+            rc2 = R.run_limited(action, lim, ign)
+            st["fsize_runs"] += 1
+            if rc2 != 0:
+                st["fsize_failed_run"] += 1
+            verdict("fsize-limit-%s" % ("short-write" if ign else "sigxfsz"), "RLIMIT_FSIZE=%d" % lim, R.get(), rc2)
+    # history: a run killed right before its rename leaves its temporary file behind; the file then changes (gets shorter)
+    # and the command runs again undisturbed - the result must be what a run without that history produces
+    ren = [p for p in points if p[1] in ("rename", "renameat", "renameat2")]
+    P = bld.lib.encode()
+    shorter = b"/usr/lib/libz.so\n" if action == "enable" else P + b"\n"
+    if ren and len(shorter) < len(content or b"") :
+        k, nm, ordn = ren[0]
+        R.reset(shorter)
+        rc0, _ = R.run(action)
+        expect = R.get()
+        R.reset(content)
+        rc2, l2 = R.run(action, "%s:signal=KILL:when=%d" % (nm, ordn))
+        left = [f for f in os.listdir(work) if f not in ("trace", "ld.so.preload")]
+        if left and rc0 == 0:
+            with open(R.file, "wb") as f:
+                f.write(shorter)
+            rc3, _ = R.run(action)
+            got = R.get()
+            st["history_runs"] += 1
+            if got != expect:
+                F.violation("C20:%s:after-killed-run:left-over-temporary-file-leaks-into-result" % action,
+                            "%s of %r killed before %s left %s; after the file changed to %r the next %s gave %r (exit %d), a run without that history gives %r" % (
+                                action, name, nm, left, short(shorter, 60), action, short(got or b"", 160), rc3, short(expect or b"", 160)),
+                            dict(action=action, initial=name, left_over=left, got=(got or b"")[:400].decode("latin-1"),
+                                 expect=(expect or b"")[:400].decode("latin-1")))
+        else:
+            st["inconclusive"] += 1
     return F, st, dict(action=action, initial=name, baseline_syscalls=len(seq), points=len(points))
 
 
@@ -205,6 +256,8 @@ def main():
     runs = tot["kill_runs"] + tot["err_runs"]
     if (tot["kill_fired"] == 0 or tot["err_fired"] == 0) and F.n_unlisted() == 0:
         raise Harness("no injected fault fired: %s" % tot)
+    if (tot["fsize_failed_run"] == 0 or tot["history_runs"] == 0) and F.n_unlisted() == 0:
+        raise Harness("file-size-limit / history arms observed nothing: %s" % tot)
     if (tot["inconclusive"] > max(3, runs // 50)) and F.n_unlisted() == 0:
         raise Harness("too many inconclusive injections: %s" % tot)
     rc = F.report()
@@ -217,6 +270,7 @@ def main():
         monitor_events=tot, scenarios=infos, build=dict(variant="plain", treehash=bld.treehash), violation_keys=sorted(F.viol)),
         time.time() - t0, F.n_unlisted(),
         ["strace kills the tracee before the targeted syscall executes (measured, DESIGN section 1)",
-         "a process killed between two syscalls is indistinguishable on disk from one killed right before the second"])
+         "a process killed between two syscalls is indistinguishable on disk from one killed right before the second",
+         "short writes are produced with RLIMIT_FSIZE (limits 0, 1, half and length-1 of the new content), not by faking return values"])
     log("[C20] %s %.1fs" % (tot, time.time() - t0))
     return rc
